@@ -148,6 +148,8 @@ func (d *Dialer) Release(connect bool) {
 	}
 }
 
+func (d *Dialer) NumDials() int { d.mu.Lock(); defer d.mu.Unlock(); return d.Dials }
+
 func (d *Dialer) NumConns() int { d.mu.Lock(); defer d.mu.Unlock(); return len(d.Conns) }
 
 func (d *Dialer) Conn(i int) *End { d.mu.Lock(); defer d.mu.Unlock(); return d.Conns[i] }
